@@ -10,6 +10,7 @@ import (
 	"github.com/feichai0017/NoKV/pb"
 	myraft "github.com/feichai0017/NoKV/raft"
 	"github.com/feichai0017/NoKV/raftstore/peer"
+	"github.com/feichai0017/NoKV/utils"
 )
 
 func (s *Store) validateCommand(req *pb.RaftCmdRequest) (*peer.Peer, manifest.RegionMeta, *pb.RaftCmdResponse, error) {
@@ -79,6 +80,7 @@ func (s *Store) ProposeCommand(req *pb.RaftCmdRequest) (*pb.RaftCmdResponse, err
 		s.command.removeProposal(id)
 		return nil, err
 	}
+	utils.VerifYield("store.propose.wait", s.storeID, id)
 	timer := time.NewTimer(s.commandTimeout)
 	defer timer.Stop()
 	select {
